@@ -227,8 +227,52 @@ func propC14(p *Prog, r *Report) {
 	}
 }
 
+// pruneEmptyList removes the edges a non-empty list never takes (false edge of len(list) > 0, true edge of
+// len(list) == 0): with nothing to delete there is nothing to hand over.
+func pruneEmptyList(p *Prog, fi *FuncInfo, f *Flat, listObj types.Object) *Flat {
+	info := fi.Pkg.TypesInfo
+	return f.WithoutEdges(func(from *GNode, e Edge) bool {
+		if !from.IsCond {
+			return false
+		}
+		env := &Env{P: p, Pkg: fi.Pkg, Vars: map[types.Object]*Val{}}
+		env.Hook = func(env *Env, x ast.Expr) (*Val, bool) {
+			if c, ok := x.(*ast.CallExpr); ok && len(c.Args) == 1 {
+				if id, ok := c.Fun.(*ast.Ident); ok && id.Name == "len" && objOf(info, c.Args[0]) == listObj {
+					return intVal(1), true
+				}
+			}
+			return nil, false
+		}
+		v, err := env.Eval(from.Ast.(ast.Expr))
+		if err != nil || v.C == nil {
+			return false
+		}
+		// with a non-empty list the condition has this value: the other edge is "list empty"
+		taken := 2
+		if v.C.ExactString() == "true" {
+			taken = 1
+		}
+		return e.Label != taken
+	})
+}
+
 func c14Consumed(p *Prog, r *Report) {
 	producers := []string{kUpdateTx, kCoreDeleteTx, kCoreDeleteOld, kCoreLoad}
+	// "hands the list to the cleaner": DeleteFiles(Async)(.., list), or a module function that does so with its
+	// parameter on every path on which the list is not empty
+	toCleaner := p.newMustUse("to-cleaner", func(fi *FuncInfo, c *ast.CallExpr, match func(ast.Expr) bool) bool {
+		if !p.callIs(fi.Pkg, c, kDeleteFilesAsync, kDeleteFiles) {
+			return false
+		}
+		for _, a := range c.Args {
+			if match(a) {
+				return true
+			}
+		}
+		return false
+	})
+	toCleaner.Prune = func(fi *FuncInfo, f *Flat, po types.Object) *Flat { return pruneEmptyList(p, fi, f, po) }
 	n := 0
 	for _, k := range sortedFuncKeys(p) {
 		fi := p.Funcs[k]
@@ -254,57 +298,24 @@ func c14Consumed(p *Prog, r *Report) {
 			if listObj == nil {
 				// passed directly?
 				direct := false
-				ast.Inspect(f.Nodes[s.Node].Ast, func(x ast.Node) bool {
-					if c, ok := x.(*ast.CallExpr); ok && p.callIs(fi.Pkg, c, kDeleteFilesAsync, kDeleteFiles) {
-						for _, a := range c.Args {
-							if ast.Unparen(a) == s.Call {
-								direct = true
-							}
-						}
+				for _, c := range callsIn(f.Nodes[s.Node].Ast, false) {
+					if c != s.Call && toCleaner.CallUses(fi, c, func(a ast.Expr) bool { return ast.Unparen(a) == ast.Expr(s.Call) }) {
+						direct = true
 					}
-					return true
-				})
+				}
 				r.Check(direct, "C14.a", cons, p.pos(s.Call), "list handed straight to the cleaner", "the list of versions to delete returned by "+name+" is dropped: their contents stay on disk forever")
 				continue
 			}
 			sinks := f.Match(func(gn *GNode) bool {
 				for _, c := range callsIn(gn.Ast, false) {
-					if p.callIs(fi.Pkg, c, kDeleteFilesAsync, kDeleteFiles) {
-						for _, a := range c.Args {
-							if usesObj(info, a, listObj) {
-								return true
-							}
-						}
+					if toCleaner.CallUses(fi, c, func(a ast.Expr) bool { return usesObj(info, a, listObj) }) {
+						return true
 					}
 				}
 				return false
 			})
 			// paths from the call to an exit that avoid the sinks
-			g := f.WithoutEdges(func(from *GNode, e Edge) bool {
-				if !from.IsCond {
-					return false
-				}
-				// false edge of len(list) > 0 / true edge of len(list) == 0: nothing to delete
-				env := &Env{P: p, Pkg: fi.Pkg, Vars: map[types.Object]*Val{}}
-				env.Hook = func(env *Env, x ast.Expr) (*Val, bool) {
-					if c, ok := x.(*ast.CallExpr); ok && len(c.Args) == 1 {
-						if id, ok := c.Fun.(*ast.Ident); ok && id.Name == "len" && objOf(info, c.Args[0]) == listObj {
-							return intVal(1), true
-						}
-					}
-					return nil, false
-				}
-				v, err := env.Eval(from.Ast.(ast.Expr))
-				if err != nil || v.C == nil {
-					return false
-				}
-				// with a non-empty list the condition has this value: the other edge is "list empty"
-				taken := 2
-				if v.C.ExactString() == "true" {
-					taken = 1
-				}
-				return e.Label != taken
-			})
+			g := pruneEmptyList(p, fi, f, listObj)
 			// the producer's own error: a return that propagates it is accepted
 			errOK := map[int]bool{}
 			if s.Kind == "assigned" && s.ErrVar != nil {
